@@ -297,6 +297,45 @@ func (e *C15) one(ctx *core.Ctx) {
 		}
 		return sel
 	}
+	if r.Intn(6) == 0 && len(prev) < want {
+		// the reconcile is overtaken: between its read and its status write the user replaces the canary node
+		// selector by one that no node satisfies. Whatever the reconcile does about the refused write, it must
+		// not store nodes chosen for the selector that is gone.
+		ctx.Count("C15.overtaken-by-selector-edit-judged")
+		done := false
+		ctl.CEDS.Hook = func(phase string, c *simapi.Call) {
+			if phase == "pre" && !done && c.Kind == simapi.KindEDS && c.Verb == "status-update" {
+				done = true
+				s.Mutate(simapi.KindEDS, "ns", "foo", func(o clientObject) {
+					o.(*v1.ExtendedDaemonSet).Spec.Strategy.Canary.NodeSelector = &metav1.LabelSelector{MatchLabels: map[string]string{"pool": "none"}}
+				})
+			}
+		}
+		out := ctl.Reconcile("eds", "ns", "foo", "fn")
+		ctl.CEDS.Hook = nil
+		if out.Panic != "" {
+			a := attrsBase("overtaken-by-selector-edit")
+			a["panic"] = out.Panic
+			ctx.Violation("C15", "C15.no-panic", a, desc)
+			return
+		}
+		got := kit.GetEDS(s, "ns", "foo")
+		if done && got.Status.Canary != nil {
+			was := map[string]bool{}
+			for _, p := range prev {
+				was[p] = true
+			}
+			for _, x := range got.Status.Canary.Nodes {
+				if !was[x] {
+					a := attrsBase("overtaken-by-selector-edit")
+					a["cause"], a["origin"], a["selectionRan"] = "node-does-not-match-canary-selector", "newly-added", "true"
+					ctx.Violation("C15", "C15.valid", a, map[string]any{"case": desc, "stored-selector": got.Spec.Strategy.Canary.NodeSelector, "stored-nodes": got.Status.Canary.Nodes, "reconcile-error": fmt.Sprint(out.Err)})
+					break
+				}
+			}
+		}
+		return
+	}
 	sel := judge("initial", prev, nodes, nil)
 	if sel == nil || len(sel) == 0 {
 		return
